@@ -42,6 +42,7 @@ class Fn:
         self.proto = None
         self.body = None
         self.locals = []      # [(name, ctype)] in declaration order
+        self.local_depth = {}  # name -> loop nesting depth at its declaration (0: function level, visible to the frame of every later loop)
         self.loops = 0
         self.calls = []       # cnames called (repo functions)
         self.calldecls = {}   # cname -> declaration node
@@ -1446,6 +1447,7 @@ class Lower:
             return
         isref = pt.kind == 'ref'
         self.cur.locals.append((name, ct))
+        self.cur.local_depth.setdefault(name, self.loop_depth)
         if not init:
             cls, _ = self.types.classify(pt)
             if cls in ('record',):
